@@ -15,6 +15,11 @@ import (
 )
 
 // R4: the CHALLENGE parser and the AV_PAIR walker.
+//
+// Verdict policy (c08_complete.go): a mismatch is a violation only when the
+// value in question was resolved to reads of the message (wireIntAt3's
+// `observed`); an unresolved value, a struct or buffer handed to code that is
+// not followed, or a walk of another shape is NOT DECIDED.
 
 // c08Get recognises binary.<Order>.UintN(buf[lo:hi]) and returns the slice read.
 func c08Get(v ssa.Value) (call *ssa.Call, window ssa.Value, width int, order string, ok bool) {
@@ -96,8 +101,13 @@ func (c *c08) wireRead(z *codec.Sym, v ssa.Value, fr *codec.Frame, depth int) (*
 		root, rfr, lo, _, _ := c08Window(z, win, fr)
 		return &c08Read{call: call, root: root, rootFr: rfr, lo: lo, width: w, order: order}, true
 	}
+	idx, tuple := 0, false
+	if ex, isEx := v.(*ssa.Extract); isEx {
+		// one of several results of an accessor: length, offset := readDescriptor(d)
+		v, idx, tuple = ex.Tuple, ex.Index, true
+	}
 	call, f := c08StaticCall(v)
-	if call == nil || f == nil || f.Blocks == nil || !c.P.InModule(f) || depth >= 2 || f.Signature.Results().Len() != 1 {
+	if call == nil || f == nil || f.Blocks == nil || !c.P.InModule(f) || depth >= 2 || idx >= f.Signature.Results().Len() || (!tuple && f.Signature.Results().Len() != 1) {
 		return nil, false
 	}
 	var ret *ssa.Return
@@ -112,26 +122,52 @@ func (c *c08) wireRead(z *codec.Sym, v ssa.Value, fr *codec.Frame, depth int) (*
 	if ret == nil {
 		return nil, false
 	}
-	return c.wireRead(z, ret.Results[0], &codec.Frame{Call: call, Callee: f, Parent: fr}, depth+1)
+	return c.wireRead(z, ret.Results[idx], codec.ChildFrame(call, f, fr), depth+1)
 }
 
 // wireIntAt: v is an N-byte integer read at constant offset off of buf in the given order.
 func (c *c08) wireIntAt(z *codec.Sym, v ssa.Value, fr *codec.Frame, buf ssa.Value, off int64, width int, order string) (bool, string) {
+	is, why, _ := c.wireIntAt3(z, v, fr, buf, off, width, order)
+	return is, why
+}
+
+// wireIntAt3 also says whether a mismatch was positively observed (the value
+// IS a wire read, of other bytes / another width / the other order — or a
+// combination of wire reads and constants) as opposed to not resolved.
+func (c *c08) wireIntAt3(z *codec.Sym, v ssa.Value, fr *codec.Frame, buf ssa.Value, off int64, width int, order string) (is bool, why string, observed bool) {
 	rd, ok := c.wireRead(z, v, fr, 0)
 	if !ok {
-		return false, "is not read with encoding/binary from the message"
+		// an expression over wire reads and constants is observed, anything else is not
+		f := z.OfIn(v, fr)
+		observed = true
+		for _, t := range f.Terms() {
+			tv, isLen := z.TermValue(t)
+			if isLen {
+				observed = false
+				break
+			}
+			if _, isRd := c.wireRead(z, tv, z.TermFrame(t), 0); !isRd {
+				observed = false
+				break
+			}
+		}
+		if observed {
+			return false, "is " + z.String(f) + ", not one integer read with encoding/binary from the message", true
+		}
+		return false, "is not read with encoding/binary from the message", false
 	}
 	lo, isK := c08FormConst(rd.lo)
 	if !isK || rd.root != buf || rd.rootFr != nil {
-		return false, "is not read at a constant offset of the message buffer"
+		return false, "is not read at a constant offset of the message buffer", false
 	}
+	observed = true
 	if lo != off || rd.width != width {
-		return false, fmt.Sprintf("is read as %d bytes at offset %d (MS-NLMP: %d bytes at %d)", rd.width, lo, width, off)
+		return false, fmt.Sprintf("is read as %d bytes at offset %d (MS-NLMP: %d bytes at %d)", rd.width, lo, width, off), true
 	}
 	if rd.order != order {
-		return false, fmt.Sprintf("is read %s (must be %s)", rd.order, order)
+		return false, fmt.Sprintf("is read %s (must be %s)", rd.order, order), true
 	}
-	return true, ""
+	return true, "", true
 }
 
 func (c *c08) parseChallenge(sig *ssa.Global) {
@@ -141,7 +177,9 @@ func (c *c08) parseChallenge(sig *ssa.Global) {
 		c.R.Undecided("R4.challenge-field", name, "-", "anchor function not found")
 		return
 	}
-	c.guard("R4.challenge-field", name, c.pos(fn.Pos()), func() { c.parseChallenge1(fn, name, sig) })
+	c.entity(map[string]int{"R4.challenge-field": 8, "R4.challenge-check": 2, "R4.challenge-desc": 2}, func() {
+		c.guard("R4.challenge-field", name, c.pos(fn.Pos()), func() { c.parseChallenge1(fn, name, sig) })
+	})
 }
 
 func (c *c08) parseChallenge1(fn *ssa.Function, name string, sig *ssa.Global) {
@@ -160,14 +198,14 @@ func (c *c08) parseChallenge1(fn *ssa.Function, name string, sig *ssa.Global) {
 		}
 		al, ok := ret.Results[0].(*ssa.Alloc)
 		if !ok || (root != nil && al != root) {
-			r.Undecided("R4.challenge-field", name, c.ipos(ret), "the success return does not return one locally allocated ChallengeMessage")
+			c.notDecided("R4.challenge-field", name, c.ipos(ret), "the success return does not return one locally allocated ChallengeMessage (the struct is built elsewhere)")
 			return
 		}
 		root = al
 		okRets = append(okRets, ret)
 	}
 	if root == nil {
-		r.Undecided("R4.challenge-field", name, c.pos(fn.Pos()), "no success return found")
+		c.notDecided("R4.challenge-field", name, c.pos(fn.Pos()), "no return of a locally allocated ChallengeMessage with a nil error found")
 		return
 	}
 	e := codec.NewExt(c.w, fn)
@@ -196,6 +234,8 @@ func (c *c08) parseChallenge1(fn *ssa.Function, name string, sig *ssa.Global) {
 		{"Version", 48, 8, "nested", true},
 	}
 	unmarshal := c.P.Func(c08Version, "Version", "Unmarshal")
+	// where the struct being filled is handed to code that is not followed
+	rootFlows := c.flowsOut(root, c08FlowOpts{ignore: func(f *ssa.Function) bool { return f == unmarshal }})
 	for _, s := range spec {
 		construct := name + ": " + s.field
 		as := byField[s.field]
@@ -211,12 +251,31 @@ func (c *c08) parseChallenge1(fn *ssa.Function, name string, sig *ssa.Global) {
 			}
 		}
 		if len(as) != 1 {
-			r.Fail("R4.challenge-field", construct, c.pos(fn.Pos()), fmt.Sprintf("field %s is filled from the message %d times (expected once); decoder layout: %s", s.field, len(as), codec.Render(atoms)))
+			// Complete only if every write of the struct was seen: the struct does not
+			// leave the function before it is returned and the field is stored nowhere.
+			why := rootFlows
+			if why == "" && c.fieldStored(fn, root, s.field) {
+				why = "the field is assigned a value that the decoder extraction does not trace to the message"
+			}
+			if len(as) > 1 {
+				why = fmt.Sprintf("the field is filled from the message on %d alternative paths", len(as))
+			}
+			if why != "" {
+				c.notDecided("R4.challenge-field", construct, c.pos(fn.Pos()), fmt.Sprintf("field %s: %s (decoder layout seen: %s)", s.field, why, codec.Render(atoms)))
+				if s.kind == "desc" {
+					c.notDecided("R4.challenge-desc", name+": "+s.field+" descriptor", c.pos(fn.Pos()), "the field's assignment was not traced (see R4.challenge-field)")
+				}
+				continue
+			}
+			r.Fail("R4.challenge-field", construct, c.pos(fn.Pos()), fmt.Sprintf("field %s is never assigned (the struct does not leave the function before it is returned); decoder layout: %s", s.field, codec.Render(atoms)))
 			continue
 		}
 		a := as[0]
 		if a.Stream != data.Name() {
-			r.Fail("R4.challenge-field", construct, c.pos(a.Pos), "the field is not read from the message buffer but from "+a.Stream)
+			c.notDecided("R4.challenge-field", construct, c.pos(a.Pos), "the field is read from "+a.Stream+", whose relation to the message buffer is not followed")
+			if s.kind == "desc" {
+				c.notDecided("R4.challenge-desc", name+": "+s.field+" descriptor", c.pos(a.Pos), "the field's source was not traced (see R4.challenge-field)")
+			}
 			continue
 		}
 		if a.Cond && !s.cond {
@@ -330,6 +389,8 @@ func (c *c08) parseChallenge1(fn *ssa.Function, name string, sig *ssa.Global) {
 		}
 		if ok {
 			r.OK("R4.challenge-check", construct, c.pos(fn.Pos()), "bytes.Equal(data[0:8], NTLM_SIGNATURE) must hold on every success path")
+		} else if esc := c.flowsOut(data, c08FlowOpts{validators: true, ignore: func(f *ssa.Function) bool { return f == unmarshal }}); esc != "" {
+			c.notDecided("R4.challenge-check", construct, c.pos(fn.Pos()), why+" in the parser itself, but "+esc+", which may perform it")
 		} else {
 			r.Fail("R4.challenge-check", construct, c.pos(fn.Pos()), why)
 		}
@@ -378,6 +439,8 @@ func (c *c08) parseChallenge1(fn *ssa.Function, name string, sig *ssa.Global) {
 		}
 		if ok {
 			r.OK("R4.challenge-check", construct, c.pos(fn.Pos()), "LE32 at 8 must equal NTLM_CHALLENGE (2) on every success path")
+		} else if esc := c.flowsOut(data, c08FlowOpts{validators: true, lengths: true, ignore: func(f *ssa.Function) bool { return f == unmarshal }}); esc != "" && okc && want.Int64() == 2 {
+			c.notDecided("R4.challenge-check", construct, c.pos(fn.Pos()), why+" in the parser itself, but "+esc+", which may perform it")
 		} else {
 			r.Fail("R4.challenge-check", construct, c.pos(fn.Pos()), why)
 		}
@@ -483,7 +546,7 @@ func (c *c08) challengeDesc(fn *ssa.Function, name string, root *ssa.Alloc, data
 		}
 	}
 	if len(stores) != 1 {
-		r.Undecided("R4.challenge-desc", construct, c.pos(fn.Pos()), fmt.Sprintf("%d stores to the field (expected one)", len(stores)))
+		c.notDecided("R4.challenge-desc", construct, c.pos(fn.Pos()), fmt.Sprintf("%d stores to the field; the payload is read off exactly one", len(stores)))
 		return
 	}
 	// what is stored: data[lo:hi] itself, or the result of an in-module helper
@@ -525,7 +588,7 @@ func (c *c08) challengeDesc(fn *ssa.Function, name string, root *ssa.Alloc, data
 			if depth >= 2 {
 				return "the payload is produced through more than two levels of helpers"
 			}
-			fr2 := &codec.Frame{Call: x, Callee: f, Parent: fr}
+			fr2 := codec.ChildFrame(x, f, fr)
 			n := 0
 			for _, b := range f.Blocks {
 				if ret, ok := b.Instrs[len(b.Instrs)-1].(*ssa.Return); ok {
@@ -543,7 +606,7 @@ func (c *c08) challengeDesc(fn *ssa.Function, name string, root *ssa.Alloc, data
 		return "the field is not assigned data[lo:hi]"
 	}
 	if why := collect(stores[0].Val, nil, 0); why != "" {
-		r.Undecided("R4.challenge-desc", construct, c.ipos(stores[0]), why)
+		c.notDecided("R4.challenge-desc", construct, c.ipos(stores[0]), why)
 		return
 	}
 	if len(leaves) == 0 {
@@ -553,27 +616,45 @@ func (c *c08) challengeDesc(fn *ssa.Function, name string, root *ssa.Alloc, data
 	for _, lf := range leaves {
 		sl, fr := lf.sl, lf.fr
 		if root, rfr := codec.Resolve(sl.X, fr); root != ssa.Value(data) || rfr != nil || sl.Low == nil || sl.High == nil || sl.Max != nil {
-			r.Undecided("R4.challenge-desc", construct, c.ipos(sl), "the field is not assigned data[lo:hi]")
+			c.notDecided("R4.challenge-desc", construct, c.ipos(sl), "the field is assigned a slice that is not data[lo:hi] of the message buffer itself")
 			return
 		}
 		z := codec.NewSym()
-		if is, why := c.wireIntAt(z, sl.Low, fr, data, off+4, 4, "LE"); !is {
-			r.Fail("R4.challenge-desc", construct, c.ipos(sl), "the lower bound of the payload slice "+why+fmt.Sprintf(" — it must be the descriptor's BufferOffset (4LE at %d)", off+4))
+		if is, why, observed := c.wireIntAt3(z, sl.Low, fr, data, off+4, 4, "LE"); !is {
+			msg := "the lower bound of the payload slice " + why + fmt.Sprintf(" — it must be the descriptor's BufferOffset (4LE at %d)", off+4)
+			if observed {
+				r.Fail("R4.challenge-desc", construct, c.ipos(sl), msg)
+			} else {
+				c.notDecided("R4.challenge-desc", construct, c.ipos(sl), msg+": "+z.String(z.OfIn(sl.Low, fr))+" was not resolved")
+			}
 			return
 		}
 		d := z.OfIn(sl.High, fr).Sub(z.OfIn(sl.Low, fr))
 		ts := d.Terms()
 		okLen := false
 		why := "is not BufferOffset + Len: " + z.String(d)
+		observed := true // every term of the width is a wire read
+		for _, t := range ts {
+			tv, isLen := z.TermValue(t)
+			if isLen {
+				observed = false
+			} else if _, isRd := c.wireRead(z, tv, z.TermFrame(t), 0); !isRd {
+				observed = false
+			}
+		}
 		if len(ts) == 1 && d.C.Sign() == 0 && d.Coef[ts[0]].IsInt64() && d.Coef[ts[0]].Int64() == 1 {
 			v, isLen := z.TermValue(ts[0])
 			if !isLen {
 				var w string
-				okLen, w = c.wireIntAt(z, v, z.TermFrame(ts[0]), data, off, 2, "LE")
+				okLen, w, observed = c.wireIntAt3(z, v, z.TermFrame(ts[0]), data, off, 2, "LE")
 				if !okLen {
 					why = "is BufferOffset plus a value that " + w + fmt.Sprintf(" — it must be the descriptor's Len (2LE at %d)", off)
 				}
 			}
+		}
+		if !okLen && !observed {
+			c.notDecided("R4.challenge-desc", construct, c.ipos(sl), "the upper bound of the payload slice "+why+": not resolved to reads of the message")
+			return
 		}
 		if !okLen {
 			r.Fail("R4.challenge-desc", construct, c.ipos(sl), "the upper bound of the payload slice "+why)
@@ -581,6 +662,13 @@ func (c *c08) challengeDesc(fn *ssa.Function, name string, root *ssa.Alloc, data
 		}
 		out := c.w.ProveBounds(sl)
 		if !out.Proved {
+			// the guard may live in code that was not read: the message or the
+			// descriptor values are handed to a function or closure that can reject them
+			esc := c.flowsOut(data, c08FlowOpts{validators: true, lengths: true, ignore: func(f *ssa.Function) bool { return f == c.P.Func(c08Version, "Version", "Unmarshal") }})
+			if esc != "" {
+				c.notDecided("R4.challenge-desc", construct, c.ipos(sl), "data[Offset:Offset+Len] is not proved in bounds from the guards read ("+out.Failed+"), but "+esc+", which may establish the bound")
+				return
+			}
 			r.Add("R4.challenge-desc", construct, c.ipos(sl), report.Finding, "data[Offset:Offset+Len] is not proved in bounds from the dominating guard (the guard must test the very values that are sliced, without wrap): "+out.Failed, map[string]any{"facts": out.Facts})
 			return
 		}
@@ -602,7 +690,9 @@ func (c *c08) parseTargetInfo() {
 		c.R.Undecided("R4.avpair", name, "-", "anchor function not found")
 		return
 	}
-	c.guard("R4.avpair", name, c.pos(fn.Pos()), func() { c.parseTargetInfo1(fn, name) })
+	c.entity(map[string]int{"R4.avpair": 5}, func() {
+		c.guard("R4.avpair", name, c.pos(fn.Pos()), func() { c.parseTargetInfo1(fn, name) })
+	})
 }
 
 func (c *c08) parseTargetInfo1(fn *ssa.Function, name string) {
@@ -619,7 +709,7 @@ func (c *c08) parseTargetInfo1(fn *ssa.Function, name string) {
 		}
 	}
 	if len(mus) != 1 {
-		r.Undecided("R4.avpair", name+": AvId", c.pos(fn.Pos()), fmt.Sprintf("%d map updates (expected the one that records an AV pair)", len(mus)))
+		c.notDecided("R4.avpair", name+": AvId", c.pos(fn.Pos()), fmt.Sprintf("%d map updates in the function itself; the walk is read off the one that records an AV pair", len(mus)))
 		return
 	}
 	mu := mus[0]
@@ -630,7 +720,7 @@ func (c *c08) parseTargetInfo1(fn *ssa.Function, name string) {
 				continue
 			}
 			if ret.Results[0] != mu.Map {
-				r.Undecided("R4.avpair", name+": AvId", c.ipos(ret), "the map returned is not the one the pairs are stored in")
+				c.notDecided("R4.avpair", name+": AvId", c.ipos(ret), "the map returned is not the one the pairs are stored in")
 				return
 			}
 		}
@@ -660,7 +750,7 @@ func (c *c08) parseTargetInfo1(fn *ssa.Function, name string) {
 	// AvId
 	idCall, idWin, idW, idOrder, ok := c08Get(mu.Key)
 	if !ok {
-		r.Fail("R4.avpair", name+": AvId", c.ipos(mu), "the key under which a value is stored is not an integer read from the buffer")
+		c.notDecided("R4.avpair", name+": AvId", c.ipos(mu), "the key under which a value is stored, "+mu.Key.Name()+", is not directly an integer read with encoding/binary; its origin is not followed")
 		return
 	}
 	{
@@ -685,7 +775,7 @@ func (c *c08) parseTargetInfo1(fn *ssa.Function, name string) {
 		}
 	}
 	if phi == nil {
-		r.Undecided("R4.avpair", name+": AvId", c.ipos(idCall), "AvId is not read at the running offset of the loop")
+		c.notDecided("R4.avpair", name+": AvId", c.ipos(idCall), "AvId is not read at a loop-carried offset or from a loop-carried tail of the target info; the walk has another shape")
 		return
 	}
 	_, tail := phi.Type().Underlying().(*types.Slice)
@@ -699,21 +789,31 @@ func (c *c08) parseTargetInfo1(fn *ssa.Function, name string) {
 		}
 	}
 	if len(backs) == 0 || len(entries) != 1 {
-		r.Undecided("R4.avpair", name+": AvId", c.ipos(idCall), "the running offset is not a loop-carried variable")
+		c.notDecided("R4.avpair", name+": AvId", c.ipos(idCall), "the running offset is not a loop-carried variable of a loop with one entry")
 		return
 	}
 	if tail {
 		root, rfr, lo, _, open := c08Window(z, phi.Edges[entries[0]], nil)
-		if k, isK := c08FormConst(lo); root != ssa.Value(data) || rfr != nil || !isK || k != 0 || !open {
+		k, isK := c08FormConst(lo)
+		if root != ssa.Value(data) || rfr != nil || !isK {
+			c.notDecided("R4.avpair", name+": AvId", c.ipos(phi), "the tail the walk starts with is not resolved to a window of the target info")
+			return
+		}
+		if k != 0 || !open {
 			r.Fail("R4.avpair", name+": AvId", c.ipos(phi), "the walk does not start with the whole target info (offset 0 to its end)")
 			return
 		}
-	} else if k, isK := c08ConstInt(phi.Edges[entries[0]]); !isK || k.Sign() != 0 {
+	} else if k, isK := c08ConstInt(phi.Edges[entries[0]]); !isK {
+		c.notDecided("R4.avpair", name+": AvId", c.ipos(phi), "the offset the walk starts at is not a constant")
+		return
+	} else if k.Sign() != 0 {
 		r.Fail("R4.avpair", name+": AvId", c.ipos(phi), "the walk does not start at offset 0 of the target info")
 		return
 	}
 	idLo, _, _, okW := symWindow(idWin)
-	if !okW || idW != 2 || idOrder != "LE" || !idLo.Equal(P) {
+	if !okW {
+		c.notDecided("R4.avpair", name+": AvId", c.ipos(idCall), "the window AvId is read from is not resolved to an offset of the target info")
+	} else if idW != 2 || idOrder != "LE" || !idLo.Equal(P) {
 		r.Fail("R4.avpair", name+": AvId", c.ipos(idCall), fmt.Sprintf("AvId is read as %d bytes %s from offset %s; MS-NLMP AV_PAIR: AvId 2 bytes little-endian at +0", idW, idOrder, z.String(idLo)))
 	} else {
 		r.OK("R4.avpair", name+": AvId", c.ipos(idCall), "2LE at offset+0")
@@ -721,7 +821,7 @@ func (c *c08) parseTargetInfo1(fn *ssa.Function, name string) {
 	// value and AvLen
 	vLo, vHi, vOpen, ok := symWindow(mu.Value)
 	if !ok || vOpen {
-		r.Undecided("R4.avpair", name+": value", c.ipos(mu), "the value stored is not a bounded window of the target info")
+		c.notDecided("R4.avpair", name+": value", c.ipos(mu), "the value stored is not resolved to a bounded window of the target info")
 		return
 	}
 	d := vHi.Sub(vLo)
@@ -744,7 +844,11 @@ func (c *c08) parseTargetInfo1(fn *ssa.Function, name string) {
 		}
 	}
 	if lenCall == nil {
-		r.Fail("R4.avpair", name+": AvLen", c.ipos(mu), "the width of the stored value, "+z.String(d)+", is not an AvLen read from the pair header")
+		if _, isK := d.ConstVal(); isK {
+			r.Fail("R4.avpair", name+": AvLen", c.ipos(mu), "the width of the stored value, "+z.String(d)+", is not an AvLen read from the pair header")
+		} else {
+			c.notDecided("R4.avpair", name+": AvLen", c.ipos(mu), "the width of the stored value, "+z.String(d)+", is not resolved to an integer read from the pair header")
+		}
 		return
 	}
 	r.OK("R4.avpair", name+": AvLen", c.ipos(lenCall), "2LE at offset+2")
@@ -755,23 +859,44 @@ func (c *c08) parseTargetInfo1(fn *ssa.Function, name string) {
 	}
 	// advance
 	{
-		bad := ""
+		bad, nd := "", ""
 		for _, i := range backs {
 			nf := z.Of(phi.Edges[i])
 			if tail {
 				lo, _, open, ok := symWindow(phi.Edges[i])
-				if !ok || !open {
+				if !ok {
+					nd = "the tail kept for the next pair is not resolved to a window of the target info"
+					continue
+				}
+				if !open {
 					bad = "the tail kept for the next pair is not the rest of the target info up to its end"
 					continue
 				}
 				nf = lo
 			}
 			if !nf.Equal(P.AddK(4).Add(lenTerm)) {
-				bad = fmt.Sprintf("the next pair is sought at %s; it starts at offset + 4 + AvLen", z.String(nf))
+				// observed only if the new position is a form over the old one and AvLen
+				extra := false
+				for _, t := range nf.Terms() {
+					if _, inP := P.Coef[t]; inP {
+						continue
+					}
+					if _, inL := lenTerm.Coef[t]; inL {
+						continue
+					}
+					extra = true
+				}
+				if extra {
+					nd = fmt.Sprintf("the next pair is sought at %s, which is not resolved to offset and AvLen", z.String(nf))
+				} else {
+					bad = fmt.Sprintf("the next pair is sought at %s; it starts at offset + 4 + AvLen", z.String(nf))
+				}
 			}
 		}
 		if bad != "" {
 			r.Fail("R4.avpair", name+": advance", c.ipos(phi), bad)
+		} else if nd != "" {
+			c.notDecided("R4.avpair", name+": advance", c.ipos(phi), nd)
 		} else {
 			r.OK("R4.avpair", name+": advance", c.ipos(phi), "offset' = offset + 4 + AvLen on every back edge")
 		}
@@ -828,6 +953,8 @@ func (c *c08) parseTargetInfo1(fn *ssa.Function, name string) {
 		}
 		if ok {
 			r.OK("R4.avpair", construct, c.ipos(phi), "the loop continues only on AvId != MsvAvEOL")
+		} else if esc := c.flowsOut(idCall, c08FlowOpts{validators: true, lengths: true}); esc != "" {
+			c.notDecided("R4.avpair", construct, c.ipos(phi), "no comparison of AvId with MsvAvEOL ends the walk in the loop itself, but "+esc+", which may decide it")
 		} else {
 			r.Fail("R4.avpair", construct, c.ipos(phi), "the walk can continue past a pair whose AvId is MsvAvEOL (the list terminator)")
 		}
